@@ -826,8 +826,22 @@ func (t *tScreen) drawCell(x, y int) int {
 			t.TPuts(ti.InsertChar)
 			t.cy = y
 			t.cx = x - 1
-			t.cells.SetDirty(x-1, y, true)
-			_ = t.drawCell(x-1, y)
+			px := x - 1
+			for i := 0; i < x-1; {
+				// walk the row the way draw does: if x-1 is the hidden half
+				// of a wide rune, the detour above has damaged that rune,
+				// so repaint the rune itself rather than its hidden half
+				_, _, _, pw := t.cells.GetContent(i, y)
+				if pw < 1 {
+					pw = 1
+				}
+				if i+pw > x-1 {
+					px = i
+				}
+				i += pw
+			}
+			t.cells.SetDirty(px, y, true)
+			_ = t.drawCell(px, y)
 			t.TPuts(t.ti.TGoto(0, 0))
 			t.cy = 0
 			t.cx = 0
